@@ -272,8 +272,7 @@ Section Chain.
   (** ** options and the load invariant that keeps resizes from nesting *)
   Definition valid_chain : Prop :=
     0 < lf_den maxlf /\ 0 < lf_den minlf /\
-    lf_den maxlf <= lf_num maxlf * 4 /\                                   (* maxLF * minimum size >= 1 *)
-    2 * lf_num minlf * lf_den maxlf <= lf_num maxlf * lf_den minlf.       (* 2 * minLF <= maxLF *)
+    lf_den maxlf <= lf_num maxlf * 4.                                      (* maxLF * minimum size >= 1 *)
 
   Definition sc_load (t : sc) : Prop :=
     sc_n K V t = 0 \/ (sc_n K V t - 1) * lf_den maxlf < lf_num maxlf * sc_m K V t.
@@ -286,7 +285,7 @@ Section Chain.
       exists t', sc_put K V eqb hash maxlf d shuf t k v = Ok t' /\ sc_inv t' /\
                  forall k', sc_fun t' k' = fupd (sc_fun t) k v k'.
   Proof.
-    intros d shuf t k v Hd [I Ld] P. destruct Hvalid as (D1 & D2 & D3 & D4).
+    intros d shuf t k v Hd [I Ld] P. destruct Hvalid as (D1 & D2 & D3).
     destruct d as [|d]; [lia|]. simpl.
     destruct (i_pow _ I) as (e & Em & He).
     assert (M4 : 4 <= sc_m K V t).
@@ -313,11 +312,64 @@ Section Chain.
       nia.
   Qed.
 
+  (** the re-insertion loop of a shrink: the rebuilt table may grow again while entries are re-inserted
+      (maxLF < 2*minLF); every step is an ordinary Put on a table that satisfies the invariant *)
+  Lemma sc_reinsert_gen : forall d shuf rest pre acc,
+      1 <= d -> perm_oracle shuf ->
+      NoDup (keys (pre ++ rest)) -> sc_inv acc ->
+      (forall k, sc_fun acc k = s_get pre k) ->
+      exists t', reinsert K V (sc_put K V eqb hash maxlf d shuf) rest acc = Ok t' /\ sc_inv t' /\
+                 (forall k, sc_fun t' k = s_get (pre ++ rest) k).
+  Proof.
+    intros d shuf rest. induction rest as [|[k v] rest IH]; intros pre acc Hd P ND I F.
+    - exists acc. rewrite app_nil_r. split; [reflexivity|]. split; [exact I|exact F].
+    - rewrite reinsert_cons.
+      destruct (sc_put_ok d shuf acc k v Hd I P) as (t1 & H1 & I1 & F1). rewrite H1; simpl.
+      assert (Hk : ~ In k (keys pre)).
+      { unfold Spec.keys in *. rewrite map_app in ND. simpl in ND. apply NoDup_remove_2 in ND.
+        intros H; apply ND. apply in_or_app; auto. }
+      destruct (IH (pre ++ [(k, v)]) t1 Hd P) as (t' & H' & I' & F').
+      + now rewrite <- app_assoc.
+      + exact I1.
+      + intros k'. rewrite F1, s_get_app. unfold Spec.fupd. rewrite F.
+        destruct (eqb k k') eqn:E.
+        * apply eqb_spec in E; subst k'.
+          rewrite (proj2 (s_get_None K V eqb eqb_spec pre k) Hk).
+          unfold Spec.s_get; simpl. now rewrite (proj2 (eqb_spec k k) eq_refl).
+        * destruct (s_get pre k'); auto. unfold Spec.s_get; simpl. now rewrite E.
+      + exists t'. rewrite <- app_assoc in F'. simpl in F'. split; [exact H'|]. split; [exact I'|exact F'].
+  Qed.
+
+  Lemma sc_resize_gen : forall d shuf t e,
+      1 <= d -> sc_inv0 t -> perm_oracle shuf -> 2 <= e ->
+      exists t', sc_resize_with K V (sc_put K V eqb hash maxlf d shuf) shuf t (2 ^ e) = Ok t' /\ sc_inv t' /\
+                 (forall k, sc_fun t' k = sc_fun t k) /\ sc_n K V t' = sc_n K V t.
+  Proof.
+    intros d shuf t e Hd I P He. unfold sc_resize_with.
+    assert (L4 : 4 <= 2 ^ e) by (change 4 with (2 ^ 2); apply Nat.pow_le_mono_r; lia).
+    unfold scMinM. destruct (Nat.ltb_spec (2 ^ e) 4); [lia|].
+    destruct (sc_new_ok e He) as (nt & Hn & In & Fn & Mn & Nn). rewrite Hn; simpl.
+    pose proof (sc_represents t shuf I P) as R.
+    destruct (sc_reinsert_gen d shuf (sc_all K V shuf t) [] nt Hd P) as (t' & H' & I' & F').
+    - simpl. apply R.
+    - split; auto. left; auto.
+    - intros k. rewrite Fn. reflexivity.
+    - rewrite H'; simpl. simpl in F'.
+      assert (Ft : forall k, sc_fun t' k = sc_fun t k).
+      { intros k. rewrite F'. symmetry. apply represents_fun; auto. }
+      set (t2 := {| sc_b := sc_b K V t'; sc_m := sc_m K V t'; sc_n := sc_n K V t' |}).
+      assert (E2 : t2 = t') by (destruct t'; reflexivity).
+      exists t2. rewrite E2. split; [reflexivity|]. split; [exact I'|]. split; [exact Ft|].
+      rewrite (sc_n_length t' (sc_all K V shuf t) (proj1 I')).
+      + symmetry. apply sc_n_length; auto.
+      + eapply represents_ext; [exact R|]. intros; now rewrite Ft.
+  Qed.
+
   Lemma sc_delete_ok : forall d shuf t k, 1 <= d -> sc_inv t -> perm_oracle shuf ->
       exists t', sc_delete K V eqb hash minlf maxlf d shuf t k = Ok (t', sc_fun t k) /\ sc_inv t' /\
                  forall k', sc_fun t' k' = frem (sc_fun t) k k'.
   Proof.
-    intros d shuf t k Hd [I Ld] P. destruct Hvalid as (D1 & D2 & D3 & D4).
+    intros d shuf t k Hd [I Ld] P. destruct Hvalid as (D1 & D2 & D3).
     unfold sc_delete. pose proof (idx_lt t k I) as L.
     set (i := idx (sc_m K V t) k) in *.
     destruct (nth_error (sc_b K V t) i) as [b|] eqn:Eb; [|apply nth_error_None in Eb; lia].
@@ -368,15 +420,10 @@ Section Chain.
       + destruct e as [|e]; [lia|].
         assert (Hhalf : sc_m K V t / 2 = 2 ^ e).
         { rewrite Em, Nat.pow_succ_r', Nat.mul_comm, Nat.div_mul; lia. }
-        rewrite Hhalf. apply lf_le_true in G.
-        destruct (sc_resize_ok d shuf t1 e I1 P ltac:(lia)) as (t2 & H2 & I2 & F2 & M2 & N2).
-        { intros j Hj. simpl in Hj. apply lf_ge_false.
-          rewrite Em, Nat.pow_succ_r' in G. nia. }
-        rewrite H2; simpl. exists t2. rewrite Hfun. split; auto. split.
-        * split; auto. unfold sc_load. rewrite M2, N2. simpl.
-          destruct (Nat.eq_dec n' 0); [left; auto|right].
-          rewrite Em, Nat.pow_succ_r' in G. nia.
-        * intros k'. now rewrite F2, F1.
+        rewrite Hhalf.
+        destruct (sc_resize_gen d shuf t1 e Hd I1 P ltac:(lia)) as (t2 & H2 & I2 & F2 & N2).
+        rewrite H2; simpl. exists t2. rewrite Hfun. split; auto. split; [exact I2|].
+        intros k'. now rewrite F2, F1.
     - exists t1. rewrite Hfun. split; [reflexivity|]. split; [split; auto|exact F1].
   Qed.
 
